@@ -442,9 +442,10 @@ REGISTRY = {
                      'PP.C07.datetime_inRd', 'PP.C07.timezone_inRd', 'PP.C07.deque_inRd', 'PP.C07.deque_denotes', 'PP.C07.chainmap_inRd',
                      'PP.C07.oneArg_inRd', 'PP.C07.defaultdict_inRd', 'PP.C07.isNumTok_intLit', 'PP.C07.path_denotes',
                      'PP.C07.timedelta_tokens', 'PP.C07.timedelta_reads_back', 'PP.C07.timedelta_pformat_reads_back', 'PP.C07.daysDoc_arg',
-                     'PP.C07.tdSum_filter', 'PP.C07.TEq.noLit_eq', 'PP.C07.numTok_intLit'],
+                     'PP.C07.tdSum_filter', 'PP.C07.TEq.noLit_eq', 'PP.C07.numTok_intLit',
+                     'PP.C07.td_attrs_from_source', 'PP.C07.td_attrs_known', 'PP.C07.td_divmods_from_source', 'PP.C07.td_consts_from_source'],
         'modules': VALUE_MODULES + ['PP.Model.Std', 'PP.Props.C07', 'PP.Generated', 'PP.Props.PrinterInventory', 'PP.Props.C04', 'PP.Props.C07b',
-                    'PP.Spec.TdReader', 'PP.Props.C07c'],
+                    'PP.Spec.TdReader', 'PP.Props.C07c', 'PP.Props.TdInventory'],
         'sections': [{'name': 'stdlib', 'run': simple_sec('sec_stdlib', 'stdlib_section')},
                      {'name': 'reader', 'run': values_sec('reader_section', mode='c07')},
                      {'name': 'builtin-values', 'run': values_sec('builtin_values_section')},
